@@ -66,8 +66,8 @@ func c05StartRunner(cfg verifh.Cfg) (func(op []string) string, func()) {
 		g.ch <- pan
 		<-g.done
 		// the slot is released by the deferred clean-up after the task body ended
-		if !c5.WaitUntil(10*time.Second, func() bool { return len(rp.limitChan) < before }) {
-			return "slot-not-released"
+		if !c5.WaitUntil(2*time.Second, func() bool { return len(rp.limitChan) < before }) {
+			return "leaked"
 		}
 		return "ok"
 	}
@@ -163,8 +163,12 @@ func c05StartRunner(cfg verifh.Cfg) (func(op []string) string, func()) {
 					}
 				}(gid)
 			}
-			wg.Wait()
-			rp.Wait()
+			if !c5.Watchdog(c5.StuckAfter, wg.Wait) {
+				return "stuck"
+			}
+			if !c5.Watchdog(5*time.Second, rp.Wait) {
+				return "stuck wait"
+			}
 			// Wait returned: every slot has to be free already (release happens before Done)
 			free := cap(rp.limitChan) - len(rp.limitChan)
 			if pf := probe(); pf != free {
@@ -178,7 +182,7 @@ func c05StartRunner(cfg verifh.Cfg) (func(op []string) string, func()) {
 		for len(running) > 0 {
 			finish(false)
 		}
-		rp.Wait()
+		c5.Watchdog(time.Second, rp.Wait)
 	}
 }
 
